@@ -54,24 +54,32 @@ def run(ctx):
         holder = holder.parent
     used = False
     why = 'the number of bytes consumed by Message::decode is discarded: in strict mode fields after the first tag unknown to every section are silently dropped and the message is accepted'
+    sides = set()
     if holder is not None and holder.k == 'DeclStmt':
         var = holder.r['decls'][0][0]
         perm = fac.param_ids[3]
         for (b, a, pol) in q.branches(fac, lambda a: any(q.refers_to_decl(x, var) for x in a.walk() if x.k == 'DeclRefExpr')):
             s = a.strip(casts=True)
-            if s.k == 'BinaryOperator' and s.op in ('!=', '<', '==') and any(x.is_call and x.callee is not None and x.callee.get('n') == 'size' for x in s.walk()):
-                bad_edge = q.atom_edge(fc, (b, a, pol), s.op != '==')
+            if s.k == 'BinaryOperator' and s.op in ('!=', '<', '==', '>', '<=', '>=') and any(x.is_call and x.callee is not None and x.callee.get('n') == 'size' for x in s.walk()):
+                bad_edge = q.atom_edge(fc, (b, a, pol), s.op != '==')     # for an ordering test: the edge on which it is true
                 rs = q.reachable_returns(fc, bad_edge)
                 atoms = q.controlling_atoms(fac, a)
                 strict = any(q.refers_to_decl(x, perm) and p is False for x, p in atoms)
                 if not rs and strict:
                     used = True
+                    sides.add({'!=': 'both', '==': 'both', '<': 'short', '>': 'long', '<=': 'short', '>=': 'long'}[s.op])
                 elif rs:
                     why = 'a consumed-length mismatch does not prevent `return msg`'
                 else:
                     why = 'the consumed-length test is not restricted to strict mode'
     ctx.check(used, 'R04.1', M + 'factory#consumed-length', d.loc,
               'in strict mode a message is returned only when the decoders consumed everything before the CheckSum', why)
+    if used:
+        exact = 'both' in sides or {'short', 'long'} <= sides
+        ctx.check(exact, 'R04.1', M + 'factory#consumed-length.exact', d.loc,
+                  'the consumed length is rejected on both sides (too short: undecoded fields; too long: a data field ran into the CheckSum)',
+                  'the consumed-length test rejects only %s decodes: a Length/data pair whose declared length runs into the trailer consumes more '
+                  'than the checksummed region and the message is accepted with the CheckSum field swallowed' % ('/'.join(sorted(sides)) or 'no'))
 
     # ---------------- R04.2
     n_conv = 0
